@@ -39,6 +39,7 @@ Step ==
                [] e.ev = "SysAdmitted"      -> YAdmitted(y, e.k)
                [] e.ev = "SysFault"         -> IF e.side = "s" THEN YServerFault(y, e.k) ELSE y
                [] e.ev = "SysUseAfterFail"  -> YUseAfterFail(y, e.side, e.op)
+               [] e.ev = "SysHang"          -> YHang(y)
                [] e.ev = "SysSpin"          -> YUseAfterFail(y, e.side, "again and again without returning to the executor")
                [] e.ev = "SysWireClose"     -> IF e.side = "c" THEN YClientClose(y, e.k) ELSE y
                [] OTHER                     -> y
